@@ -86,40 +86,40 @@ Proof.
     destruct t as [|c1 [|c2 t']]; try reflexivity.
     inversion Hwt as [|? ? Hc1 Hwt1]; subst. inversion Hwt1 as [|? ? Hc2 Hwt']; subst. unfold wf_byte in Hc1, Hc2.
     rewrite (IH t') by (cbn [length] in Hn; auto; lia).
-    unfold hicb at 1. unfold locb at 1. rewrite (head3 b0 160 191 c1 c2) by lia. reflexivity.
+    rewrite (head3 b0 160 hicb c1 c2) by (unfold locb, hicb; lia). reflexivity.
   - unfold go_first. decide_cmpN. cbn [N.eqb Pos.eqb].
     destruct t as [|c1 [|c2 t']]; try reflexivity.
     inversion Hwt as [|? ? Hc1 Hwt1]; subst. inversion Hwt1 as [|? ? Hc2 Hwt']; subst. unfold wf_byte in Hc1, Hc2.
     rewrite (IH t') by (cbn [length] in Hn; auto; lia).
-    rewrite (head3 b0 128 191 c1 c2) by lia. reflexivity.
+    rewrite (head3 b0 locb hicb c1 c2) by (unfold locb, hicb; lia). reflexivity.
   - unfold go_first. decide_cmpN. cbn [N.eqb Pos.eqb].
     destruct t as [|c1 [|c2 t']]; try reflexivity.
     inversion Hwt as [|? ? Hc1 Hwt1]; subst. inversion Hwt1 as [|? ? Hc2 Hwt']; subst. unfold wf_byte in Hc1, Hc2.
     rewrite (IH t') by (cbn [length] in Hn; auto; lia).
-    unfold hicb at 1. unfold locb at 1. rewrite (head3 b0 128 159 c1 c2) by lia. reflexivity.
+    rewrite (head3 b0 locb 159 c1 c2) by (unfold locb, hicb; lia). reflexivity.
   - unfold go_first. decide_cmpN. cbn [N.eqb Pos.eqb].
     destruct t as [|c1 [|c2 t']]; try reflexivity.
     inversion Hwt as [|? ? Hc1 Hwt1]; subst. inversion Hwt1 as [|? ? Hc2 Hwt']; subst. unfold wf_byte in Hc1, Hc2.
     rewrite (IH t') by (cbn [length] in Hn; auto; lia).
-    rewrite (head3 b0 128 191 c1 c2) by lia. reflexivity.
+    rewrite (head3 b0 locb hicb c1 c2) by (unfold locb, hicb; lia). reflexivity.
   - unfold go_first. decide_cmpN. cbn [N.eqb Pos.eqb].
     destruct t as [|c1 [|c2 [|c3 t']]]; try reflexivity.
     inversion Hwt as [|? ? Hc1 Hwt1]; subst. inversion Hwt1 as [|? ? Hc2 Hwt2]; subst.
     inversion Hwt2 as [|? ? Hc3 Hwt']; subst. unfold wf_byte in Hc1, Hc2, Hc3.
     rewrite (IH t') by (cbn [length] in Hn; auto; lia).
-    unfold hicb at 1. unfold locb at 1. rewrite (head4 b0 144 191 c1 c2 c3) by lia. reflexivity.
+    rewrite (head4 b0 144 hicb c1 c2 c3) by (unfold locb, hicb; lia). reflexivity.
   - unfold go_first. decide_cmpN. cbn [N.eqb Pos.eqb].
     destruct t as [|c1 [|c2 [|c3 t']]]; try reflexivity.
     inversion Hwt as [|? ? Hc1 Hwt1]; subst. inversion Hwt1 as [|? ? Hc2 Hwt2]; subst.
     inversion Hwt2 as [|? ? Hc3 Hwt']; subst. unfold wf_byte in Hc1, Hc2, Hc3.
     rewrite (IH t') by (cbn [length] in Hn; auto; lia).
-    rewrite (head4 b0 128 191 c1 c2 c3) by lia. reflexivity.
+    rewrite (head4 b0 locb hicb c1 c2 c3) by (unfold locb, hicb; lia). reflexivity.
   - unfold go_first. decide_cmpN. cbn [N.eqb Pos.eqb].
     destruct t as [|c1 [|c2 [|c3 t']]]; try reflexivity.
     inversion Hwt as [|? ? Hc1 Hwt1]; subst. inversion Hwt1 as [|? ? Hc2 Hwt2]; subst.
     inversion Hwt2 as [|? ? Hc3 Hwt']; subst. unfold wf_byte in Hc1, Hc2, Hc3.
     rewrite (IH t') by (cbn [length] in Hn; auto; lia).
-    unfold hicb at 1. unfold locb at 1. rewrite (head4 b0 128 143 c1 c2 c3) by lia. reflexivity.
+    rewrite (head4 b0 locb 143 c1 c2 c3) by (unfold locb, hicb; lia). reflexivity.
   - (* F5..FF *)
     unfold go_first. decide_cmpN.
     destruct (N.eqb_spec (b0 / 8) 30) as [E|E]; [|reflexivity].
